@@ -201,13 +201,20 @@ fn apply(w: &mut World, op: &Op) -> Option<String> {
             }
         }
         Op::SessHeader(i, n, v) => {
+            // the ways of setting a field are interchangeable: header / try_header (name and value as text / bytes)
             if let Some(Some(s)) = w.sessions.get_mut(*i) {
-                s.header(hname(n), hval(v))
+                match (i + n.len() + v.len()) % 2 {
+                    0 => s.header(hname(n), hval(v)),
+                    _ => s.try_header(hname(n), v.clone()).expect("valid field"),
+                }
             }
         }
         Op::SessAppend(i, n, v) => {
             if let Some(Some(s)) = w.sessions.get_mut(*i) {
-                s.header_append(hname(n), hval(v))
+                match (i + n.len() + v.len()) % 2 {
+                    0 => s.header_append(hname(n), hval(v)),
+                    _ => s.try_header_append(hname(n), v.clone()).expect("valid field"),
+                }
             }
         }
         Op::Create(None) => w.builders.push(Some(attohttpc::get("http://verif.test/"))),
@@ -227,14 +234,30 @@ fn apply(w: &mut World, op: &Op) -> Option<String> {
         Op::BldHeader(i, n, v) => {
             if let Some(slot) = w.builders.get_mut(*i) {
                 if let Some(b) = slot.take() {
-                    *slot = Some(b.header(hname(n), hval(v)));
+                    *slot = Some(match (i + n.len() + v.len()) % 3 {
+                        0 => b.header(hname(n), hval(v)),
+                        1 => b.try_header(hname(n), v.clone()).expect("valid field"),
+                        _ => {
+                            let mut b = b;
+                            b.headers_mut().insert(hname(n), hval(v));
+                            b
+                        }
+                    });
                 }
             }
         }
         Op::BldAppend(i, n, v) => {
             if let Some(slot) = w.builders.get_mut(*i) {
                 if let Some(b) = slot.take() {
-                    *slot = Some(b.header_append(hname(n), hval(v)));
+                    *slot = Some(match (i + n.len() + v.len()) % 3 {
+                        0 => b.header_append(hname(n), hval(v)),
+                        1 => b.try_header_append(hname(n), v.clone()).expect("valid field"),
+                        _ => {
+                            let mut b = b;
+                            b.headers_mut().append(hname(n), hval(v));
+                            b
+                        }
+                    });
                 }
             }
         }
